@@ -448,6 +448,10 @@ struct Obs {
     deadlock: bool,
     /// the child still existed (signal 0 deliverable) right after `wait` returned
     alive_after_wait: bool,
+    /// `reaped`: the status taken by the harness' own `waitpid` before compio waited
+    stolen: Option<ExitStatus>,
+    /// `wait` failed with ECHILD
+    lost: bool,
     elapsed: Duration,
     capin: i64,
     capout: i64,
@@ -606,6 +610,7 @@ fn after_wait(o: &mut Obs, pid: u32, r: io::Result<ExitStatus>) {
     o.alive_after_wait = unsafe { libc::kill(pid as i32, 0) } == 0;
     match r {
         Ok(st) => o.status = Some(st),
+        Err(e) if e.raw_os_error() == Some(libc::ECHILD) => o.lost = true,
         Err(e) => o.errors.push(format!("wait:{:?}", e.kind())),
     }
 }
@@ -734,6 +739,16 @@ async fn run_compio(sc: &Scn, cmd: &str, payload: Vec<u8>, file: &str) -> Obs {
                 }
                 reader_result!(join!(ho, "stdout"), out, "stdout");
                 reader_result!(join!(he, "stderr"), err, "stderr");
+                if sc.opt("reaped") {
+                    // something else in the process reaps the child before compio waits for it
+                    let mut raw = 0;
+                    let r = unsafe { libc::waitpid(pid as i32, &mut raw, 0) };
+                    if r == pid as i32 {
+                        o.stolen = Some(ExitStatus::from_raw(raw));
+                    } else {
+                        o.errors.push("harness-waitpid".into());
+                    }
+                }
                 let r = child.wait().await;
                 after_wait(&mut o, pid, r);
             }
@@ -921,9 +936,21 @@ fn exec_line(line: &str, ex: &mut Exec) -> String {
         if sc.mode == "exact" && o.w != orc.w {
             ex.fail("C20:writer-result", format!("{line}: {} oracle {}", o.w, orc.w));
         }
-        match (&o.status, &orc.status) {
-            (Some(a), Some(b)) if a == b => {}
-            (a, b) => ex.fail("C20:status", format!("{line}: {:?} oracle {:?}", a, b)),
+        if sc.opt("reaped") {
+            // the status is gone: an error is the only honest answer, a status the child never had is not
+            if o.stolen != orc.status {
+                ex.fail("C20:status", format!("{line}: reaped {:?} oracle {:?}", o.stolen, orc.status));
+            }
+            if let Some(st) = &o.status {
+                if Some(*st) != o.stolen {
+                    ex.fail("C20:status-fabricated", format!("{line}: the child ended with {:?} and was reaped elsewhere, wait reports {:?}", o.stolen.as_ref().map(show_status), show_status(st)));
+                }
+            }
+        } else {
+            match (&o.status, &orc.status) {
+                (Some(a), Some(b)) if a == b => {}
+                (a, b) => ex.fail("C20:status", format!("{line}: {:?} oracle {:?}", a, b)),
+            }
         }
         if o.alive_after_wait {
             ex.fail("C20:wait-early", format!("{line}: the child still exists after wait returned"));
@@ -951,7 +978,7 @@ fn exec_line(line: &str, ex: &mut Exec) -> String {
         show_bytes(&o.err),
         o.sunk,
         o.w,
-        o.status.as_ref().map(show_status).unwrap_or("none".into())
+        if o.lost { "lost".to_string() } else { o.status.as_ref().map(show_status).unwrap_or("none".into()) }
     )
 }
 
@@ -1167,7 +1194,7 @@ fn poll_mode(sc: &mut Scn) {
 fn push(cases: &mut Vec<Case>, name: &str, mut sc: Scn) {
     clamp_chunks(&mut sc);
     poll_mode(&mut sc);
-    if (sc.mode == "loose" && sc.drv == "poll" || sc.opt("sure") || sc.plan == "held" || name == "order-deadlock") && !sc.opt("dl") {
+    if (sc.mode == "loose" && sc.drv == "poll" || sc.opt("sure") || name == "order-deadlock") && !sc.opt("dl") {
         sc.opts.push("dl".into());
     }
     let n = cases.len();
@@ -1364,8 +1391,9 @@ fn generate(tier: &str, rng: &mut Rng) -> Vec<Case> {
         }
     }
 
-    // H. findings. F200: polling driver, one write larger than stdin pipe + block + stdout pipe.
-    //    F201: `wait` / `wait_with_output` with `stdin` still inside the `Child`.
+    // H. F200 (known finding): polling driver, one write larger than stdin pipe + block + stdout pipe.
+    //    F201 (repaired in /repo 61828f8, regression): `wait` / `wait_with_output` with `stdin` still inside
+    //    the `Child` and a child that reads to end of file.
     {
         let mut sc = base("poll", small);
         sc.paylen = (3 * small + rng.range(4097, 9000)) as usize;
@@ -1400,6 +1428,68 @@ fn generate(tier: &str, rng: &mut Rng) -> Vec<Case> {
         sc.plan = "held".into();
         sc.script = vec![Act::Emit { dst: 'o', byte: b'k', n: 10 }, Act::Exit(4)];
         push2(&mut cases, "held-ok", sc);
+    }
+
+    // J. `wait_with_output` / `output`: output sizes around every power of two and just above 64 KiB
+    //    (internal buffer growth and exact-fill points of the collecting loop)
+    {
+        let mut sizes: Vec<u64> = vec![];
+        for k in 5..=18u32 {
+            let p = 1u64 << k;
+            sizes.extend([p - 1, p, p + 1, p + rng.range(2, 31)]);
+        }
+        sizes.extend((1..=40u64).map(|d| 65536 + d));
+        if !thorough {
+            let mut pick: Vec<u64> = vec![65537, 65536 + rng.range(2, 30), 65567, 65568];
+            for _ in 0..5 {
+                pick.push(*rng.pick(&sizes));
+            }
+            sizes = pick;
+        }
+        for (i, n) in sizes.into_iter().enumerate() {
+            let mut sc = base("uring", dflt);
+            sc.opts.push("wwo".into());
+            match i % 3 {
+                0 => {
+                    sc.stdin_null = true;
+                    sc.script = vec![Act::Emit { dst: 'o', byte: b'w', n }, Act::Exit(*rng.pick(&CODES))];
+                }
+                1 => {
+                    sc.stdin_null = true;
+                    sc.script = vec![
+                        Act::Emit { dst: 'e', byte: b'v', n },
+                        Act::Emit { dst: 'o', byte: b'u', n: rng.range(0, 40) },
+                        Act::Exit(*rng.pick(&CODES)),
+                    ];
+                }
+                _ => {
+                    // echo: stdin taken by a writer task, the rest inside `wait_with_output`
+                    sc.paylen = n as usize;
+                    sc.payseed = rng.below(1000);
+                    sc.wch = 65537;
+                    sc.script = vec![cat('o'), Act::Exit(*rng.pick(&CODES))];
+                }
+            }
+            if thorough || i % 2 == 0 {
+                push2(&mut cases, "output-size", sc);
+            } else {
+                sc.drv = (*rng.pick(&["uring", "poll"])).into();
+                push(&mut cases, "output-size", sc);
+            }
+        }
+    }
+
+    // K. the child is reaped by somebody else before compio waits: the wait must fail, not invent a status
+    for k in 0..reps(2, 8) {
+        let mut sc = base("uring", dflt);
+        sc.stdin_null = true;
+        sc.plan = "drainwait".into();
+        sc.script = vec![
+            Act::Emit { dst: 'o', byte: b'z', n: rng.range(0, 100) },
+            if k % 2 == 0 { Act::Exit(*rng.pick(&[1u32, 2, 3, 127, 255])) } else { Act::Kill(*rng.pick(&SIGS)) },
+        ];
+        sc.opts.push("reaped".into());
+        push2(&mut cases, "reaped", sc);
     }
 
     // I. random mixtures
